@@ -159,9 +159,39 @@ def validate_traces(res, traces, label):
   return verdicts
 
 
+def run_apalache(res):
+  """Unbounded part: TopK of one key as an inductive invariant (HeapDictInd.tla), discharged by Apalache."""
+  import shutil
+  import subprocess
+  exe = shutil.which('apalache-mc')
+  if exe is None:
+    res.note('apalache-mc not found: the inductive invariant of HeapDictInd.tla was not discharged in this run')
+    return
+  rundir = tlc.run_dir('C14_apalache')
+  shutil.copy(os.path.join(tlc.SPEC_DIR, 'HeapDictInd.tla'), rundir)
+  out = {}
+  for name, init, length in (('initiation', 'Init', 0), ('consecution', 'IndInit', 1)):
+    try:
+      p = subprocess.run([exe, 'check', '--cinit=CInit', '--init=' + init, '--inv=IndInv', '--length=%d' % length,
+                          '--out-dir=' + os.path.join(rundir, 'out'), 'HeapDictInd.tla'], cwd=rundir,
+                         stdout=subprocess.PIPE, stderr=subprocess.STDOUT, text=True, timeout=600)
+    except subprocess.TimeoutExpired:
+      res.note('apalache %s timed out; not counted' % name)
+      return
+    ok = 'The outcome is: NoError' in p.stdout and p.returncode == 0
+    out[name] = 'NoError' if ok else 'Error'
+    if not ok:
+      raise tlc.MachineryError('Apalache does not discharge %s of HeapDictInd!IndInv:\n%s' % (name, p.stdout[-1200:]))
+  res.extra['inductive_invariant'] = dict(out, module='HeapDictInd.tla', invariant='IndInv (TopK of one key)',
+                                          scope='any number of pushes, any integer values, capacity K in 0..4',
+                                          tool='apalache-mc 0.58 (--init=IndInit --inv=IndInv --length=1)')
+  shutil.rmtree(os.path.join(rundir, 'out'), ignore_errors=True)
+
+
 def run(res):
   from matched_markets.methodology import heapdict
   thorough = res.tier == 'thorough'
+  run_apalache(res)
   # 1. design level
   kmax, maxpush = (3, 5) if thorough else (3, 4)
   r = tlc.run_tlc('HeapDict', DESIGN_CFG % (kmax, maxpush, ''), tlc.run_dir('C14_design'), workers=16, timeout=3000)
